@@ -38,17 +38,34 @@ def pixel(r, c):
     return (7 * r + 3 * c + 1000 * t) % 30011
 
 
-def corners(rect):
-    v0, v1, h0, h1 = rect
+# An odd unit coordinate stands for "strictly inside that cell".  Concretely it is placed at the cell's middle, or a
+# nanodegree away from the cell's lower / upper border (the model's answer depends on the cell only).
+NEAR = 1.0 - 240.0 * 1e-9
+VARIANTS = {"mid": (0.0, 0.0, 0.0, 0.0), "below-borders": (-NEAR, -NEAR, -NEAR, -NEAR), "above-borders": (NEAR, NEAR, NEAR, NEAR),
+            "sliver": (NEAR, -NEAR, NEAR, -NEAR)}
+
+
+def corners(rect, variant="mid"):
+    v0, v1, h0, h1 = [u + (j if u % 2 else 0.0) for u, j in zip(rect, VARIANTS[variant])]
     return 90.0 - v1 / 240.0, -180.0 + h0 / 240.0, 90.0 - v0 / 240.0, -180.0 + h1 / 240.0     # lat_min, lon_min, lat_max, lon_max
 
 
 def replay(col, case):
+    rect = case["rect"]
+    variants = ["mid"]
+    if any(u % 2 for u in rect):
+        variants += list(VARIANTS)[1:] if case.get("all_variants") else [list(VARIANTS)[1 + (sum(rect) // 2) % 3]]
+    for variant in variants:
+        replay_variant(col, case, variant)
+
+
+def replay_variant(col, case, variant):
     from typhon.topography import SRTM30
     rect = case["rect"]
-    lat_min, lon_min, lat_max, lon_max = corners(rect)
+    lat_min, lon_min, lat_max, lon_max = corners(rect, variant)
     aligned = "aligned" if all(u % 2 == 0 for u in rect[:2]) else "unaligned-lat"
-    rep = {"abstract": {"rect_units": rect}, "concrete": {"lat_min": lat_min, "lon_min": lon_min, "lat_max": lat_max, "lon_max": lon_max}}
+    rep = {"abstract": {"rect_units": rect}, "concrete": {"lat_min": lat_min, "lon_min": lon_min, "lat_max": lat_max, "lon_max": lon_max,
+                                                         "placement_of_unaligned_edges": variant}}
     saved = SRTM30.get_tile
     try:
         SRTM30.get_tile = staticmethod(synth_tile)
@@ -161,7 +178,8 @@ def gen(ctx, d, vs, hs):
 
 def run(ctx):
     quick = ctx.tier == "quick"
-    ctx.rule = ("TLC enumerates rectangles with corners from sets of unit coordinates (1/240 degree) around tile corners, tile "
+    ctx.rule = ("(unaligned edges are placed at the middle of their cell and a nanodegree from its lower / upper border) "
+                "TLC enumerates rectangles with corners from sets of unit coordinates (1/240 degree) around tile corners, tile "
                 "edges and +-180 degrees - aligned corners at multiples of 1/8 degree (exact in binary), unaligned ones in the "
                 "middle of a cell - checks the covering law and prints the row/column block, the intersecting tiles and the "
                 "corner pixels; SRTM30.elevation is run with synthetic tiles whose pixel encodes global row, column and tile, "
@@ -190,6 +208,9 @@ def run(ctx):
             for hk in (2, 3, 5, 6, 8):
                 more = gen(ctx, d, near(vb), near(9600 * hk))
                 cases += ctx.rng.sample(more, len(more) // 8)
+    if not quick:
+        for n, c in enumerate(cases):
+            c["all_variants"] = n % 3 == 0
     pmap(ctx, replay, cases, procs=6, chunk=5)
     pmap(ctx, grids_check, [0], procs=1)
     with open(os.path.join(d, "MCCache.cfg"), "w") as f:
